@@ -9,8 +9,9 @@ Correspondence: the real Registry.WriteOutputs + TargetResultCache.Write over th
 Oracle (no model): audit of the cache directory by the Go side alone (every visible cas/<d> re-hashes to d; every
                target/<k> unmarshals and references only present blobs, trees included) after the faulty run and after a
                follow-up build; the follow-up build (fresh process, no faults) restores byte-identical outputs for every
-               cached target and rebuilds the others. Thorough tier: the real grog process is killed by strace fault
-               injection at the N-th rename / openat / write for every N of a reference run, then audit + real follow-up build.
+               cached target and rebuilds the others. The real grog process is killed by strace fault injection (SIGKILL on
+               syscall entry) at the first openat/write/close/rename touching each cache entry and at the N-th rename / write /
+               openat of a reference run (quick: 4 kill points, thorough: all), then audit + real follow-up builds.
 """
 import hashlib, json, os, re, shutil, subprocess
 from . import _stores as S
@@ -105,6 +106,8 @@ def check_run(ctx, req, x, tag, stats, replay_reqs):
         stats["events"] += 1
         if e.get("fault"):
             stats["faults_hit"][e["fault"] + ":" + e["e"]] = stats["faults_hit"].get(e["fault"] + ":" + e["e"], 0) + 1
+        if e["e"] == "disk-full":
+            stats["faults_hit"]["disk-full:%d" % e["limit"]] = stats["faults_hit"].get("disk-full:%d" % e["limit"], 0) + 1
     if x["audit"] or x["audit_after"]:
         ctx.violation("the cache directory is inconsistent after a build with backend faults: " + "; ".join((x["audit"] + x["audit_after"])[:3]),
                       {"kind": "oracle", "oracle": "cache directory audit", "request": req, "audit": x["audit"], "audit_after": x["audit_after"],
@@ -119,7 +122,7 @@ def check_run(ctx, req, x, tag, stats, replay_reqs):
             ctx.violation("the build after a faulty build does not recover: target %s %s failed or restored different content (%s)" % (f["target"], f["mode"], f.get("msg", "")),
                           {"kind": "oracle", "oracle": "follow-up build recovers", "request": req, "followup": x["followup"], "events": x["events"]},
                           signature="followup-%s-fails:%s" % (f["mode"], tag))
-    ev = [e for e in x["events"] if e.get("ns", "cas") in ("cas", "target")]
+    ev = [e for e in x["events"] if e["e"] in ("exists", "get", "sb", "se") and e.get("ns", "cas") in ("cas", "target")]
     keys = sorted({("cas", k) for k in x["cas_keys"]} | {("target", k) for k in x["target_keys"]} |
                   {(e["ns"], e["k"]) for e in ev if "k" in e})
     replay_reqs.append(({"op": "store.replay", "events": ev, "query": [list(k) for k in keys]}, req, x, keys))
@@ -130,7 +133,7 @@ def run(ctx):
     scratch = ctx.scratch("c07")
     stats = {"runs": 0, "events": 0, "outcome": {}, "faults_hit": {}, "followup": {}, "ops_per_reference_run": [], "concurrent_runs": 0, "unlocked_runs": 0}
     replay_reqs = []
-    loads = fixed_workloads() + [workload(ctx.rng, k) for k in range(3 if quick else 25)]
+    loads = fixed_workloads() + [workload(ctx.rng, k) for k in range(2 if quick else 25)]
     distinct = set()
     all_reqs = []
     for wi, (ws, targets) in enumerate(loads):
@@ -147,19 +150,24 @@ def run(ctx):
         reqs = []
         # every single fault; the number of operations can grow after a fault (Exists fails -> Set is tried), so go a bit beyond
         # (large workloads: a stride through the operations in the quick tier, every operation in the thorough tier)
-        stride = 1 if (nops <= 60 or not quick) else max(1, nops // 40)
+        stride = 1 if (nops <= 60 or not quick) else max(1, nops // 15)
         for i in list(range(1, nops + 3, stride)) + ([nops, nops + 1] if stride > 1 else []):
             for kind in KINDS:
                 reqs.append((dict(base, plans=[{"plan": {str(i): kind}}]), "single:" + kind))
+        # the disk fills up at the i-th operation: from then on no file of the process can grow beyond L bytes (write(2) stores what
+        # fits and fails) — for writes through a temp file nothing becomes visible; an in-place write would leave a truncated entry
+        for i in range(1, nops + 1, 1 if (nops <= 30 or not quick) else max(1, nops // 10)):
+            for lim in ((0, 64) if quick else (0, 1, 64, 3000, 40000)):
+                reqs.append((dict(base, plans=[{"plan": {str(i): "fsize:%d" % lim}}]), "disk-full"))
         # repeated faults: everything from the i-th operation on fails; two and three scattered faults
-        for i in range(1, nops + 1, 1 if not quick else max(1, nops // 6)):
+        for i in range(1, nops + 1, 1 if not quick else max(1, nops // 4)):
             for kind in KINDS:
                 reqs.append((dict(base, plans=[{"every": kind, "from": i}]), "from:" + kind))
-        for _ in range(10 if quick else 60):
+        for _ in range(6 if quick else 60):
             idx = ctx.rng.sample(range(1, nops + 2), min(nops, ctx.rng.choice([2, 3])))
             reqs.append((dict(base, plans=[{"plan": {str(i): ctx.rng.choice(KINDS) for i in idx}}]), "multi"))
         # two concurrent processes writing the same content (same digests, same target keys), with faults
-        for _ in range(8 if quick else 60):
+        for _ in range(6 if quick else 60):
             plans = [{"plan": {str(ctx.rng.randint(1, nops + 1)): ctx.rng.choice(KINDS) for _ in range(ctx.rng.choice([0, 1, 2]))}} for _ in range(2)]
             reqs.append((dict(base, procs=2, plans=plans), "concurrent"))
         for _ in range(4 if quick else 30):
@@ -177,8 +185,9 @@ def run(ctx):
                 del replay_reqs[n0:]        # without the per-key lock the logged order is not the order of effects: oracle only
             else:
                 check_run(ctx, r, x, tag, stats, replay_reqs)
-            if "events" in x and any(e.get("fault") for e in x["events"]):
+            if "events" in x and any(e.get("fault") or e["e"] == "disk-full" for e in x["events"]):
                 distinct.add(hashlib.sha1(S.jdump([wi, r["plans"], r["procs"]]).encode()).hexdigest())
+    remote_read_faults(ctx, scratch, stats)
     # --- trace inclusion -------------------------------------------------------------------------
     rejected = []
     state_diffs = []
@@ -198,7 +207,7 @@ def run(ctx):
     ctx.coverage["distinct_nontrivial"] = len(distinct)
     ctx.coverage["rule"] = ("workloads of 1-3 targets (directory and file outputs sharing contents and sub-directories); per workload: reference run, every "
                             "single fault (i-th backend operation x {err, err-after = stored but error returned, err-mid = reader fails half way}), "
-                            "everything-fails-from-i, 2-3 scattered faults, two concurrent processes with faults (per-key serialised wrapper: replayed), three "
+                            "disk full at the i-th operation (RLIMIT_FSIZE 0/64 bytes: writes store what fits and fail), everything-fails-from-i, 2-3 scattered faults, remote read-fault histories (mid-stream failure / early close, then a second read; local cache content audit), two concurrent processes with faults (per-key serialised wrapper: replayed), three "
                             "concurrent processes without the wrapper lock (audit only); after every run: Go-side audit, follow-up build, audit; non-trivial = "
                             "distinct (workload, fault plan) in which at least one injected fault was actually hit")
     ctx.coverage["distribution"] = stats
@@ -216,8 +225,37 @@ def run(ctx):
                       {"kind": "correspondence", "correspondence": "backend-operation traces of Registry.WriteOutputs + TargetResultCache.Write vs GrogModel.Store.step",
                        "request": req, "model": y, "rejected_event": rr["events"][at] if 0 <= at < len(rr["events"]) else None,
                        "events": rr["events"], "n_rejected": len(rejected), "n_state_diffs": len(state_diffs)}, found_input=False)
-    if not quick:
-        strace_kills(ctx, stats)
+    strace_kills(ctx, stats)
+
+
+def remote_read_faults(ctx, scratch, stats):
+    """a cache READ fails: remote reads failing in the middle of a blob / consumers that stop early, then a second read of the same key,
+    through the real RemoteWrapper (harness of C08); oracle: content audit of every local cache, successful restores are byte-identical"""
+    from . import c08
+    hs = [h for h in c08.fixed_histories() if h[3].startswith(("fixed-midstream", "fixed-retry-same-key", "fixed-flat-get-faults", "fixed-5"))]
+    reqs = [{"op": "store.remote", "scratch": scratch, "ws": ws, "targets": t, "history": h} for ws, t, h, _ in hs]
+    outs = S.impl(ctx, reqs) or []
+    n = 0
+    for (ws, t, h, fam), req, x in zip(hs, reqs, outs):
+        if "error" in x or "panic" in x:
+            ctx.violation("implementation driver failed on a read-fault history", {"kind": "impl-crash", "request": req, "impl": x}, signature="driver-error", found_input="panic" in x)
+            continue
+        n += 1
+        for st in x.get("steps") or []:
+            for mname, bad in (st.get("local_audit") or {}).items():
+                ctx.violation("after a failed cache read the local cache of machine %s exposes an entry whose content does not match its key: %s" % (mname, bad[0]),
+                              {"kind": "oracle", "oracle": "content audit of the local caches after read faults", "request": req, "step": st, "family": fam},
+                              signature="read-fault-leaves-corrupt-entry")
+            for r in st.get("results") or []:
+                if r.get("kind", st["do"]) == "restore" and r["outcome"] == "ok" and not r.get("equal"):
+                    ctx.violation("a restore after a failed cache read produced content that differs from what was cached",
+                                  {"kind": "oracle", "oracle": "restored == cached after read faults", "request": req, "step": st, "family": fam},
+                                  signature="read-fault-restores-corrupt-data")
+                if r["outcome"] == "hang" and S.confirm_hang(ctx, req, lambda o: any(rr.get("outcome") == "hang" for ss in o.get("steps") or [] for rr in ss.get("results") or [])):
+                    ctx.violation("a cache read after a failed cache read hangs", {"kind": "oracle", "oracle": "no hang", "request": req, "step": st, "family": fam},
+                                  signature="read-fault-hang")
+    stats["remote_read_fault_histories"] = n
+    ctx.coverage["evaluations"] = ctx.coverage.get("evaluations", 0)
 
 
 # --------------------------------------------------------------------------------------------------
@@ -253,6 +291,11 @@ def snapshot(root):
 
 
 def strace_kills(ctx, stats):
+    """kill the real grog process (SIGKILL on syscall entry, injected by strace) (a) at the first openat / write / close / rename that
+    touches each entry of the cache directory, for every entry a reference build creates (`strace -P <entry>`), and (b) at the N-th
+    rename / write / openat of any thread for N over the counts of a reference run; after each kill: Go-side audit of what is left, then a
+    real follow-up build that must succeed with the clean-build outputs, then a build after deleting the outputs (every target is
+    restored from the cache: a corrupt entry would surface as wrong output content)."""
     grog = ctx.grog_binary()
     if not grog or not shutil.which("strace"):
         ctx.notes.append("strace kill points skipped (grog binary or strace unavailable)")
@@ -267,50 +310,77 @@ def strace_kills(ctx, stats):
         make_workspace(ws)
         return d, ws, dict(env, GROG_ROOT=os.path.join(d, "root"), HOME=d)
 
-    d, ws, e = fresh("ref")
-    log = os.path.join(d, "strace.log")
-    p = subprocess.run(["strace", "-f", "-e", "trace=renameat2,openat,write,renameat,rename", "-o", log, grog, "build", "//..."], cwd=ws, env=e,
+    def cache_entries(root):
+        out = []
+        for dp, dn, fn in os.walk(root):
+            if os.path.basename(os.path.dirname(dp)) == "cache" and os.path.basename(dp) in ("cas", "target"):
+                out += [os.path.join(dp, f) for f in fn if not f.startswith("tmp-")]
+        return sorted(out)
+
+    # reference run in the directory all kill runs use (same workspace path => same cache paths and keys)
+    d, ws, e = fresh("k")
+    log = os.path.join(base, "strace.log")
+    p = subprocess.run(["strace", "-f", "-e", "trace=renameat2,openat,write,renameat,rename,close", "-o", log, grog, "build", "//..."], cwd=ws, env=e,
                        capture_output=True, text=True, timeout=120)
     if p.returncode != 0:
         ctx.notes.append("strace reference build failed: " + (p.stdout + p.stderr)[-400:])
         return
     expected = snapshot(ws)
+    entries = cache_entries(e["GROG_ROOT"])
     counts = {}
     for line in open(log, errors="replace"):
         m = re.match(r"\d+\s+(\w+)\(", line)
         if m:
             counts[m.group(1)] = counts.get(m.group(1), 0) + 1
     stats["strace_reference_counts"] = counts
-    kills = []
-    for sc in ("renameat2", "renameat", "rename", "openat", "write"):
+    stats["strace_cache_entries"] = len(entries)
+    kills = [("path", sc, ent) for ent in entries for sc in ("openat", "write", "close", "renameat", "renameat2")]
+    for sc in ("renameat2", "renameat", "rename", "write", "openat"):
         n = counts.get(sc, 0)
-        step = 1 if sc.startswith("rename") else max(1, n // 40)
-        kills += [(sc, k) for k in range(1, n + 1, step)]
-    done = 0
-    for sc, k in kills:
+        step = 1 if sc.startswith("rename") else (2 if sc == "write" else max(1, n // 20))
+        kills += [("nth", sc, k) for k in range(1, n + 1, step)]
+    if ctx.tier == "quick":
+        # a small sample: first write and first rename on one blob and on one target result
+        pick = [ent for ent in entries if "/cas/" in ent][:1] + [ent for ent in entries if "/target/" in ent][:1]
+        kills = [("path", sc, ent) for ent in pick for sc in ("write", "renameat")]
+    done = effective = 0
+    for mode, sc, arg in kills:
         d, ws, e = fresh("k")
-        subprocess.run(["strace", "-f", "-o", "/dev/null", "-e", "trace=" + sc, "-e", f"inject={sc}:signal=KILL:when={k}", grog, "build", "//..."],
-                       cwd=ws, env=e, capture_output=True, text=True, timeout=120)
-        # audit of what is left, by the Go side
-        cache_dirs = [os.path.join(dp, "cache") for dp, dn, _ in os.walk(e["GROG_ROOT"]) if "cache" in dn]
-        for cd in cache_dirs:
-            a = S.impl(ctx, [{"op": "store.audit", "cache": cd}])[0]
-            if a.get("audit"):
-                ctx.violation("cache directory inconsistent after killing grog at the %d-th %s: %s" % (k, sc, "; ".join(a["audit"][:3])),
-                              {"kind": "oracle", "oracle": "audit after kill", "syscall": sc, "when": k, "audit": a["audit"]}, signature="audit-after-kill")
+        cmd = ["strace", "-f", "-o", "/dev/null", "-e", "trace=" + sc, "-e", f"inject={sc}:signal=KILL:when={1 if mode == 'path' else arg}"]
+        if mode == "path":
+            cmd += ["-P", arg]
+        r = subprocess.run(cmd + [grog, "build", "//..."], cwd=ws, env=e, capture_output=True, text=True, timeout=120)
+        effective += 1 if r.returncode != 0 else 0
+        where = ("first %s on %s" % (sc, "/".join(arg.split("/")[-2:]))) if mode == "path" else ("%d-th %s" % (arg, sc))
+        for dp, dn, _ in os.walk(e["GROG_ROOT"]):
+            if "cache" in dn:
+                a = S.impl(ctx, [{"op": "store.audit", "cache": os.path.join(dp, "cache")}])[0]
+                if a.get("audit"):
+                    ctx.violation("cache directory inconsistent after killing grog at the %s: %s" % (where, "; ".join(a["audit"][:3])),
+                                  {"kind": "oracle", "oracle": "audit after kill", "mode": mode, "syscall": sc, "at": arg, "audit": a["audit"]}, signature="audit-after-kill")
         # stale lock files are C10's subject: remove them, then the follow-up build must succeed and give the clean-build outputs
         for dp, dn, fn in os.walk(e["GROG_ROOT"]):
             for f in fn:
                 if "lock" in f:
                     os.remove(os.path.join(dp, f))
-        q = subprocess.run([grog, "build", "//..."], cwd=ws, env=e, capture_output=True, text=True, timeout=120)
-        got = snapshot(ws) if q.returncode == 0 else None
-        if q.returncode != 0 or got != expected:
-            ctx.violation("the build after killing grog at the %d-th %s fails or produces different outputs" % (k, sc),
-                          {"kind": "oracle", "oracle": "follow-up build after kill", "syscall": sc, "when": k, "rc": q.returncode,
-                           "output": (q.stdout + q.stderr)[-1500:], "differs": sorted(set(expected) ^ set(got or {}))[:10]}, signature="followup-after-kill")
+        for phase in ("follow-up build", "build after deleting the outputs"):
+            if phase != "follow-up build":
+                shutil.rmtree(os.path.join(ws, "pkg", "out"), ignore_errors=True)
+                for f in ("tool", "b.txt"):
+                    if os.path.exists(os.path.join(ws, "pkg", f)):
+                        os.remove(os.path.join(ws, "pkg", f))
+            q = subprocess.run([grog, "build", "//..."], cwd=ws, env=e, capture_output=True, text=True, timeout=120)
+            got = snapshot(ws) if q.returncode == 0 else None
+            if q.returncode != 0 or got != expected:
+                ctx.violation("the %s after killing grog at the %s fails or produces different outputs" % (phase, where),
+                              {"kind": "oracle", "oracle": phase + " after kill", "mode": mode, "syscall": sc, "at": arg, "rc": q.returncode,
+                               "output": (q.stdout + q.stderr)[-1500:],
+                               "differs": sorted(k for k in set(expected) | set(got or {}) if expected.get(k) != (got or {}).get(k))[:10]},
+                              signature="followup-after-kill")
+                break
         done += 1
     stats["strace_kill_runs"] = done
+    stats["strace_kills_that_ended_the_build"] = effective
     ctx.coverage["evaluations"] += done
 
 
@@ -324,7 +394,7 @@ def replay(ctx, rep):
     print("outcomes:", x.get("outcomes"))
     print("audit   :", x.get("audit"), x.get("audit_after"))
     print("followup:", x.get("followup"))
-    ev = [e for e in x.get("events", []) if e.get("ns", "cas") in ("cas", "target")]
+    ev = [e for e in x.get("events", []) if e["e"] in ("exists", "get", "sb", "se") and e.get("ns", "cas") in ("cas", "target")]
     y = S.model(ctx, [{"op": "store.replay", "events": ev, "query": []}])[0]
     print("model   :", y)
     bad = bool(x.get("audit") or x.get("audit_after")) or any(not f["ok"] or not f["equal"] for f in x.get("followup", [])) or not y.get("accepted")
